@@ -75,7 +75,7 @@ def chain_carried_only(i, p, outer, c):
 CHAINS = dict(direct=chain_direct, affine=chain_affine, shared=chain_shared, carried_only=chain_carried_only)
 
 LOOP_SHAPES = ([dict(chain=ch, extra=ex, variant="ok") for ch in ("direct", "affine", "shared", "carried_only") for ex in ("none", "second_setup")]
-               + [dict(chain="affine", extra="none", variant=v) for v in ("impure_input", "launch_before", "launch_amid_inputs", "nested_launch_before", "no_launch", "launch_in_nested", "not_loop_carried", "no_in_state")])
+               + [dict(chain="affine", extra="none", variant=v) for v in ("impure_input", "launch_before", "launch_amid_inputs", "nested_launch_before", "nested2_launch_before", "nested3_launch_before", "no_launch", "launch_in_nested", "not_loop_carried", "no_in_state")])
 
 
 def build_loop(sh, sym):
@@ -108,6 +108,18 @@ def build_loop(sh, sym):
         r0.parent = wrap0
         wrap0.regions = [r0]
         pre = [wrap0]
+        extra_uses = [guarded]
+    if variant in ("nested2_launch_before", "nested3_launch_before"):
+        # the same, two resp. three region levels deep (scf.if in scf.if, scf.if in an inner scf.for, ...)
+        guarded = accfg.LaunchOp([], [], l0)
+        node = guarded
+        for _ in range(2 if variant == "nested2_launch_before" else 3):
+            w = BodyOp([], 0, False)
+            r = Region([Block([node])])
+            r.parent = w
+            w.regions = [r]
+            node = w
+        pre = [node]
         extra_uses = [guarded]
     in_state = l0
     if variant == "not_loop_carried":
